@@ -30,8 +30,19 @@ import (
 //     directly (recursive form), or through a "set once" variable initialised
 //     to a negative sentinel (iterative form).
 //
+//   - the tag test and the terminator test are decided on WHICH of the 256
+//     values of the length byte reach the code that follows a pointer, reads a
+//     label or leaves with success (c09ByteDispatch: branch conditions that
+//     are functions of the length byte alone are evaluated with
+//     wire.EvalPure, in-module predicate helpers included), so b&0xC0 == 0xC0,
+//     b >= 0xC0, b>>6 == 3, isCompressionPointer(b) and a switch are the same
+//     thing; the length byte may be read several times in one iteration;
+//   - a success return whose offset is a φ joining several ways out (the
+//     pointer branch leaving through the common tail) is judged per way out.
+//
 // When the input buffer flows into code that was not analysed (wire.Dec
-// escapes) the clauses are reported NOT DECIDED, never as violations.
+// escapes), or a branch on the length byte cannot be evaluated, the clauses
+// are reported NOT DECIDED, never as violations.
 
 var c09DecKeys = []string{
 	"DecodeDomainName: label follows its length byte and is as long as it says",
@@ -317,6 +328,16 @@ func c09NamesDecoder(c *Ctx, w *prove.World, decA *wcodec, tag int64, layouts ma
 		notDecided("length byte / pointer word / label read not all recognised: " + wire.Render(d.Atoms))
 		return
 	}
+	// every read of the length byte of this iteration (the same offset may be
+	// read more than once: `if data[curr] == 0`, `isPointer(data[curr])`,
+	// `length := int(data[curr])`); the input buffer is not written by a decoder
+	lenVals := map[ssa.Value]bool{}
+	for i := range flat {
+		a := &flat[i]
+		if a.Kind == "fixed" && a.Width == 1 && a.Off != nil && a.Val != nil && a.Off.Equal(*lenA.Off) {
+			lenVals[a.Val] = true
+		}
+	}
 	// the label loop and its cursor
 	loop := dx.LoopOf(lenA.At.Block())
 	var cursor *ssa.Phi
@@ -368,7 +389,7 @@ func c09NamesDecoder(c *Ctx, w *prove.World, decA *wcodec, tag int64, layouts ma
 	// 1. label follows its length byte
 	key := c09DecKeys[0]
 	wv, single := labA.End.Sub(*labA.Off).Single()
-	if labA.Off.Equal(*lenA.End) && single && wv == lenA.Val {
+	if labA.Off.Equal(*lenA.End) && single && lenVals[wv] {
 		r.OK("names", key, c.P.Rel(labA.Pos), "label = data[curr+1 : curr+1+length]")
 	} else {
 		r.Fail("names", key, c.P.Rel(labA.Pos), fmt.Sprintf("the label is read from [%s, %s) but its length byte is at %s", dx.SymString(*labA.Off), dx.SymString(*labA.End), dx.SymString(*lenA.Off)))
@@ -408,45 +429,44 @@ func c09NamesDecoder(c *Ctx, w *prove.World, decA *wcodec, tag int64, layouts ma
 	}
 	// 4. returned offsets
 	key = c09DecKeys[3]
-	c09RetOffsets(c, dx, d, decA, key, lenA, ptrA, recAs, cursor, len(jumps) > 0, func(i int) (ssa.Value, *ssa.BasicBlock) { return backs[jumps[i]].raw, backs[jumps[i]].pred }, len(jumps))
-
-	// 5. tag test
-	key = c09DecKeys[4]
-	var tagIf *ssa.If
-	var k1, k2 int64
-	for _, b := range decA.fn.Blocks {
-		iff, ok := b.Instrs[len(b.Instrs)-1].(*ssa.If)
-		if !ok {
-			continue
-		}
-		cmp, ok := iff.Cond.(*ssa.BinOp)
-		if !ok || cmp.Op != token.EQL {
-			continue
-		}
-		for _, sd := range [][2]ssa.Value{{cmp.X, cmp.Y}, {cmp.Y, cmp.X}} {
-			and, ok := sd[0].(*ssa.BinOp)
-			if !ok || and.Op != token.AND {
-				continue
-			}
-			kk2, isK := wConstOf(sd[1])
-			if !isK {
-				continue
-			}
-			for _, as := range [][2]ssa.Value{{and.X, and.Y}, {and.Y, and.X}} {
-				kk1, isK1 := wConstOf(as[1])
-				if isK1 && wire.StripConv(as[0]) == lenA.Val {
-					tagIf, k1, k2 = iff, kk1, kk2
-				}
-			}
-		}
+	var followBlocks []*ssa.BasicBlock
+	for _, st := range sites {
+		followBlocks = append(followBlocks, st.chain[0].Block())
 	}
+	for _, j := range jumps {
+		followBlocks = append(followBlocks, backs[j].pred)
+	}
+	c09RetOffsets(c, dx, d, decA, key, lenA, ptrA, recAs, followBlocks, cursor, len(jumps) > 0, func(i int) (ssa.Value, *ssa.BasicBlock) { return backs[jumps[i]].raw, backs[jumps[i]].pred }, len(jumps))
+
+	// 5. tag test and 8. terminator, decided on WHICH values of the length byte
+	// reach the code that follows a pointer / reads a label / leaves with
+	// success — not on how the tests are written (c09ByteDispatch)
+	disp := c09ByteDispatch(c, dx, decA, loop, lenA, lenVals, followBlocks, labA.At.Block(), d.Rets)
+	key = c09DecKeys[4]
 	switch {
-	case tagIf == nil:
-		r.Undecided("names", key, decA.pos, "no test of the form (lengthByte & K) == K found")
-	case k1 == tag && k2 == tag && (tagIf.Block().Succs[0] == ptrA.At.Block() || tagIf.Block().Succs[0].Dominates(ptrA.At.Block())):
-		r.OK("names", key, c.P.Rel(tagIf.Pos()), fmt.Sprintf("(b & %#x) == %#x guards the pointer branch", k1, k2))
+	case disp.nd != "":
+		r.OK("names", key, decA.pos, "NOT DECIDED — "+disp.nd)
+		r.Note("C09 names: tag test of DecodeDomainName NOT DECIDED — %s", disp.nd)
 	default:
-		r.Fail("names", key, c.P.Rel(tagIf.Pos()), fmt.Sprintf("the pointer branch is taken when (b & %#x) == %#x; both constants must be labelPointer = %#x (otherwise ordinary labels or extended label types are followed as pointers, or pointers are read as labels)", k1, k2, tag))
+		bad := ""
+		for b := int64(0); b < 256 && bad == ""; b++ {
+			isPtr := b&tag == tag && tag != 0
+			switch {
+			case isPtr && !disp.follow[b]:
+				bad = fmt.Sprintf("a length byte %#x has both labelPointer bits (%#x) set but is not followed as a compression pointer", b, tag)
+			case isPtr && disp.label[b]:
+				bad = fmt.Sprintf("a length byte %#x has both labelPointer bits (%#x) set but may also be read as the length of a label", b, tag)
+			case !isPtr && disp.follow[b]:
+				bad = fmt.Sprintf("a length byte %#x is followed as a compression pointer although (b & labelPointer) != labelPointer = %#x (ordinary labels or extended label types are followed as pointers)", b, tag)
+			case !isPtr && b != 0 && !disp.label[b]:
+				bad = fmt.Sprintf("a length byte %#x is an ordinary label length (b & labelPointer != labelPointer = %#x) but no label is read for it", b, tag)
+			}
+		}
+		if bad != "" {
+			r.Fail("names", key, decA.pos, "the pointer branch must be taken exactly when (b & labelPointer) == labelPointer: "+bad)
+		} else {
+			r.OK("names", key, decA.pos, fmt.Sprintf("evaluated for all 256 values of the length byte: a pointer is followed exactly when (b & %#x) == %#x, every other non-zero value is a label length", tag, tag))
+		}
 	}
 
 	// 6. mask: every offset a pointer is followed to is (pointer word & 0x3FFF)
@@ -532,29 +552,26 @@ func c09NamesDecoder(c *Ctx, w *prove.World, decA *wcodec, tag int64, layouts ma
 
 	// 8. zero length byte ends the name
 	key = c09DecKeys[7]
-	okZero := false
-	for _, b := range decA.fn.Blocks {
-		iff, ok := b.Instrs[len(b.Instrs)-1].(*ssa.If)
-		if !ok {
-			continue
-		}
-		cmp, ok := iff.Cond.(*ssa.BinOp)
-		if !ok || cmp.Op != token.EQL {
-			continue
-		}
-		for _, sd := range [][2]ssa.Value{{cmp.X, cmp.Y}, {cmp.Y, cmp.X}} {
-			if k, isK := wConstOf(sd[1]); isK && k == 0 && wire.StripConv(sd[0]) == lenA.Val {
-				lp := dx.LoopOf(b)
-				if lp != nil && !lp.Blocks[iff.Block().Succs[0]] {
-					okZero = true
-				}
+	switch {
+	case disp.nd != "":
+		r.OK("names", key, decA.pos, "NOT DECIDED — "+disp.nd)
+	case disp.follow[0] || disp.label[0]:
+		r.Fail("names", key, decA.pos, "a zero length byte is not a terminator: it may be followed as a pointer or read as an (empty) label — the encoder's terminating zero byte is not recognised")
+	case !disp.exit[0]:
+		r.Fail("names", key, decA.pos, "no test `length == 0` that leaves the label loop: after a zero length byte no success return is reached without reading a label or a pointer — the encoder's terminating zero byte is not recognised")
+	default:
+		bad := int64(-1)
+		for b := int64(1); b < 256; b++ {
+			if disp.exitSure[b] {
+				bad = b
+				break
 			}
 		}
-	}
-	if okZero {
-		r.OK("names", key, decA.pos, "length == 0 leaves the label loop")
-	} else {
-		r.Fail("names", key, decA.pos, "no test `length == 0` that leaves the label loop: the encoder's terminating zero byte is not recognised")
+		if bad >= 0 {
+			r.Fail("names", key, decA.pos, fmt.Sprintf("a length byte %#x ends the name like the terminating zero byte does (no label or pointer is read for it)", bad))
+		} else {
+			r.OK("names", key, decA.pos, "length == 0 leaves the label loop")
+		}
 	}
 }
 
@@ -617,31 +634,76 @@ func c09Ranking(w *prove.World, dx *wire.X, loop *wire.Loop, cursor *ssa.Phi, ju
 }
 
 // c09RetOffsets: clause 4.
-func c09RetOffsets(c *Ctx, dx *wire.X, d *wire.Dec, decA *wcodec, key string, lenA, ptrA *wire.Atom, recAs []*wire.Atom, cursor *ssa.Phi, iterative bool, jump func(i int) (ssa.Value, *ssa.BasicBlock), njumps int) {
+func c09RetOffsets(c *Ctx, dx *wire.X, d *wire.Dec, decA *wcodec, key string, lenA, ptrA *wire.Atom, recAs []*wire.Atom, followBlocks []*ssa.BasicBlock, cursor *ssa.Phi, iterative bool, jump func(i int) (ssa.Value, *ssa.BasicBlock), njumps int) {
 	r := c.R
 	if len(d.Rets) == 0 || len(d.RetOff) != len(d.Rets) {
 		r.Undecided("names", key, decA.pos, "the success returns of DecodeDomainName do not all carry a new offset")
 		return
 	}
 	if !iterative {
+		// the offset returned on a success return may be a φ that joins the two
+		// ways out (the pointer branch leaving through the common tail): each
+		// value that flows into it is judged by where it comes from
+		type leaf struct {
+			v    ssa.Value
+			from *ssa.BasicBlock
+		}
 		okRet := true
 		why := ""
+		n := 0
 		for i, ret := range d.Rets {
-			want := *lenA.End
-			branch := "terminator"
-			for _, rec := range recAs {
-				if rec.At.Block().Dominates(ret.Block()) {
-					want = *ptrA.End
-					branch = "pointer"
+			var leaves []leaf
+			var expand func(v ssa.Value, from *ssa.BasicBlock, depth int)
+			expand = func(v ssa.Value, from *ssa.BasicBlock, depth int) {
+				if phi, ok := v.(*ssa.Phi); ok && depth < 6 {
+					isHeader := false
+					for _, p := range phi.Block().Preds {
+						if phi.Block().Dominates(p) {
+							isHeader = true
+						}
+					}
+					if !isHeader {
+						for k, e := range phi.Edges {
+							expand(e, phi.Block().Preds[k], depth+1)
+						}
+						return
+					}
 				}
+				leaves = append(leaves, leaf{v, from})
 			}
-			if !d.RetOff[i].Equal(want) {
-				okRet = false
-				why = fmt.Sprintf("the %s return yields offset %s, expected %s", branch, dx.SymString(d.RetOff[i]), dx.SymString(want))
+			if len(ret.Results) == 3 {
+				expand(ret.Results[1], ret.Block(), 0)
+			} else {
+				leaves = []leaf{{nil, ret.Block()}}
+			}
+			for _, lf := range leaves {
+				n++
+				got := d.RetOff[i]
+				if lf.v != nil {
+					got = dx.Sym(lf.v)
+				}
+				want := *lenA.End
+				branch := "terminator"
+				for _, rec := range recAs {
+					if rec.At.Block() == lf.from || rec.At.Block().Dominates(lf.from) {
+						want = *ptrA.End
+						branch = "pointer"
+					}
+				}
+				for _, fb := range followBlocks {
+					if fb == lf.from || fb.Dominates(lf.from) {
+						want = *ptrA.End
+						branch = "pointer"
+					}
+				}
+				if !got.Equal(want) {
+					okRet = false
+					why = fmt.Sprintf("the %s return yields offset %s, expected %s", branch, dx.SymString(got), dx.SymString(want))
+				}
 			}
 		}
 		if okRet {
-			r.OK("names", key, decA.pos, fmt.Sprintf("%d success returns", len(d.Rets)))
+			r.OK("names", key, decA.pos, fmt.Sprintf("%d success returns, %d ways out", len(d.Rets), n))
 		} else {
 			r.Fail("names", key, decA.pos, "new offset after a name is wrong: "+why)
 		}
@@ -720,4 +782,103 @@ func c09RetOffsets(c *Ctx, dx *wire.X, d *wire.Dec, decA *wcodec, key string, le
 		}
 	}
 	r.OK("names", key, decA.pos, fmt.Sprintf("%d success return(s): the end of the first pointer word (kept in a set-once variable), else the end of the terminator", len(d.Rets)))
+}
+
+// c09Dispatch: for every value b of the length byte, what one iteration of the
+// label loop may do with it.
+type c09Dispatch struct {
+	follow   [256]bool // the code that follows a compression pointer is reached
+	label    [256]bool // a label read is reached
+	exit     [256]bool // a success return is reached without reading a label or following a pointer
+	exitSure [256]bool // … for a non-zero byte
+	nd       string    // why the dispatch could not be evaluated
+}
+
+// c09ByteDispatch walks the control flow of one iteration of the label loop
+// for each of the 256 values of the length byte. A branch whose condition is a
+// function of the length byte alone is evaluated (wire.EvalPure: any pure
+// expression, in-module predicate helpers included) and only the successor
+// taken is followed; every other branch (bounds checks, error checks) is
+// followed both ways. The walk does not continue past the blocks that follow
+// a pointer or read a label, and does not re-enter the loop header.
+func c09ByteDispatch(c *Ctx, dx *wire.X, decA *wcodec, loop *wire.Loop, lenA *wire.Atom, lenVals map[ssa.Value]bool, followBlocks []*ssa.BasicBlock, labelBlock *ssa.BasicBlock, rets []*ssa.Return) *c09Dispatch {
+	out := &c09Dispatch{}
+	if loop == nil {
+		out.nd = "the length byte is not read inside a loop"
+		return out
+	}
+	for v := range lenVals {
+		if in, ok := v.(ssa.Instruction); !ok || in.Parent() != decA.fn {
+			out.nd = "the length byte is read in a helper, not in DecodeDomainName itself: the tests on it are not evaluated there"
+			return out
+		}
+	}
+	stop := map[*ssa.BasicBlock]string{labelBlock: "label"}
+	for _, fb := range followBlocks {
+		if fb.Parent() != decA.fn {
+			out.nd = "a pointer is followed outside DecodeDomainName itself"
+			return out
+		}
+		stop[fb] = "follow"
+	}
+	if labelBlock.Parent() != decA.fn {
+		out.nd = "the label is read outside DecodeDomainName itself"
+		return out
+	}
+	retBlock := map[*ssa.BasicBlock]bool{}
+	for _, r := range rets {
+		retBlock[r.Block()] = true
+	}
+	callOK := func(f *ssa.Function) bool { return c.P.InModule(f) }
+	env := map[ssa.Value]int64{}
+	for b := int64(0); b < 256; b++ {
+		for v := range lenVals {
+			env[v] = b
+		}
+		seen := map[*ssa.BasicBlock]bool{}
+		work := []*ssa.BasicBlock{loop.Header}
+		for len(work) > 0 {
+			blk := work[len(work)-1]
+			work = work[:len(work)-1]
+			if seen[blk] {
+				continue
+			}
+			seen[blk] = true
+			switch stop[blk] {
+			case "label":
+				out.label[b] = true
+				continue
+			case "follow":
+				out.follow[b] = true
+				continue
+			}
+			if retBlock[blk] {
+				out.exit[b] = true
+				continue
+			}
+			succs := blk.Succs
+			if iff, ok := blk.Instrs[len(blk.Instrs)-1].(*ssa.If); ok && len(succs) == 2 {
+				if v, _, okv := wire.EvalPure(iff.Cond, env, callOK); okv {
+					if v != 0 {
+						succs = succs[:1]
+					} else {
+						succs = succs[1:]
+					}
+				} else if wire.DependsOn(iff.Cond, lenVals) && wire.OnlyOf(iff.Cond, lenVals) {
+					out.nd = "a branch of the label loop depends on the length byte alone but its condition could not be evaluated: " + dx.Expr(iff.Cond)
+					return out
+				}
+			}
+			for _, s := range succs {
+				if s == loop.Header {
+					continue
+				}
+				work = append(work, s)
+			}
+		}
+		if b != 0 {
+			out.exitSure[b] = out.exit[b]
+		}
+	}
+	return out
 }
